@@ -2937,9 +2937,17 @@ fn quiesce(router: &mut Router, world: &Rc<RefCell<World>>) -> bool {
                         s > 0 || g
                     }).unwrap_or(false))
         });
-        if !progress && !pending_signals && !more && w.evq.is_empty() {
+        // (a signal pending on a link that has no enabled step - a link that sent a
+        // packet which ends its connection, a connect the router will not answer -
+        // changes nothing any more: the router has just run to idle)
+        let _ = pending_signals;
+        if !progress && !more && w.evq.is_empty() {
             fixpoint = true;
             break;
+        }
+        if _round == 2990 && std::env::var("VERIF_DEBUG_QUIESCE").is_ok() {
+            let who: Vec<String> = w.links.iter().enumerate().filter(|(_, l)| l.state == LState::Up && l.rx.as_ref().map(|r| { let (s, g) = r.verif_signal(); s > 0 || g }).unwrap_or(false)).map(|(i, l)| format!("link{i} rogue={} current={} poisoned={} abandoned={} sig={:?}", w.clients[l.client].rogue, w.clients[l.client].link == Some(i), l.poisoned, w.abandoned.contains(&i), l.rx.as_ref().map(|r| r.verif_signal()))).collect();
+            eprintln!("quiesce stuck: pending={} {:?}", w.links.iter().filter(|l| l.state == LState::Pending).count(), who);
         }
     }
     let mut w = world.borrow_mut();
